@@ -65,6 +65,7 @@ def run(facts, tr, rep):
 
     # try_withdraw: `true` only on the success edge of a subtracting CAS/fetch_update guarded by balance >= amount
     for (c, im, adt_def) in impls:
+        crate_ = c
         items = {it["name"]: it["def"] for it in im["items"]}
         tw = facts.bodies.get(items.get("try_withdraw"))
         dp = facts.bodies.get(items.get("deposit"))
@@ -251,7 +252,7 @@ def run(facts, tr, rep):
         from ..builders import _classify, _classify_call_field
         for (ab, i, j, rv) in agg_sites(facts, adt_def):
             for fn_, op_ in zip(rv["fields"], rv["ops"]):
-                fty = c.types[next(f["ty"] for f in facts.adt(adt_def)["variants"][0]["fields"] if f["name"] == fn_)]
+                fty = crate_.types[next(f["ty"] for f in facts.adt(adt_def)["variants"][0]["fields"] if f["name"] == fn_)]
                 if fty.get("k") != "adt" or not facts.adt(fty.get("def") or "") or not atomic_fields(facts, fty["def"]):
                     continue
                 ctor = peel(tr.expand(tr.operand(ab, op_, (i, j))))
